@@ -38,7 +38,12 @@ def expand_to_target(
                 continue
 
             # Check if the size limit has been exceeded already.
-            if (size_limit is not None) and (len(sd) >= size_limit):
+            # (Nodes that are already expanded do not increase the size.)
+            if (
+                (size_limit is not None)
+                and (len(sd) >= size_limit)
+                and not sd.node_data(node)["expanded"]
+            ):
                 # Size limit reached.
                 return False
 
